@@ -5,11 +5,13 @@
 package main
 
 import (
+	"context"
 	"encoding/binary"
 	"encoding/hex"
 	"encoding/json"
 	"fmt"
 	"math/big"
+	"net"
 	"reflect"
 	"strconv"
 	"strings"
@@ -18,6 +20,7 @@ import (
 	"github.com/google/uuid"
 	"github.com/massnetorg/mass-core/poc/chiapos"
 	"github.com/massnetorg/mass-core/poc/pocutil"
+	"massnet.org/mass/fractal/connection"
 	"massnet.org/mass/fractal/protocol"
 	engine_v2 "massnet.org/mass/poc/engine.v2"
 	"verifharness/hx"
@@ -213,7 +216,7 @@ func (g *G) bytes(max int) []byte {
 	return b
 }
 func (g *G) g1() *chiapos.G1Element { return g.g1s[g.h.Rng.Intn(len(g.g1s))] }
-func (g *G) uuid() (u uuid.UUID) { g.h.Rng.Read(u[:]); return }
+func (g *G) uuid() (u uuid.UUID)    { g.h.Rng.Read(u[:]); return }
 func (g *G) u64() uint64 {
 	switch g.h.Rng.Intn(5) {
 	case 0:
@@ -410,8 +413,75 @@ func main() {
 		typ := h.Rng.Intn(8)
 		g.decLine(typ, g.bytes(60), "random")
 	}
-	// frame-size decision of the receive loop (model only mirrors the arithmetic; facts tie it to conn.go)
+	// frame-size decision of the receive loop: a peer announces a frame length on a real Conn over net.Pipe
+	g.frames()
 	h.Finish("structured stream: well-formed messages of all six types (edge big ints, empty lists, max uint64) through EncodeMessage/DecodeMessage; malformed stream: JSON field mutations, fixed adversarial bodies per type, short frames, random bytes. distinct = distinct (line, output) pairs")
+}
+
+// announce opens a Conn over net.Pipe with receive limit max, lets the peer announce a frame of
+// `size` bytes (sending the body only when it is within the limit) and classifies what the receiver did.
+func announce(max, size uint32) string {
+	local, peer := net.Pipe()
+	conn, closer, err := connection.NewConn(connection.WithNetConn(local), connection.KeepaliveInterval(0), connection.KeepaliveTimeout(0), connection.MaxRecvMsgSize(max))
+	if err != nil {
+		return "err"
+	}
+	defer func() { peer.Close(); go closer() }()
+	go func() {
+		var hdr [4]byte
+		binary.BigEndian.PutUint32(hdr[:], size)
+		peer.SetWriteDeadline(time.Now().Add(2 * time.Second))
+		if _, err := peer.Write(hdr[:]); err != nil {
+			return
+		}
+		if size > 0 && size <= max {
+			peer.Write(make([]byte, size))
+		}
+	}()
+	wait := 1500 * time.Millisecond
+	if size == 0 || size > max {
+		wait = 700 * time.Millisecond
+	}
+	ctx, cancel := context.WithTimeout(context.Background(), wait)
+	defer cancel()
+	data, err := conn.Read(ctx)
+	switch {
+	case err == nil:
+		return "alloc " + strconv.Itoa(len(data))
+	case ctx.Err() == nil:
+		return "close"
+	case size == 0:
+		return "ctrl" // nothing delivered, connection still open
+	default:
+		return "alloc " + strconv.FormatUint(uint64(size), 10) // still open, waiting for an announced body
+	}
+}
+
+func (g *G) frames() {
+	type probe struct{ max, size uint32 }
+	var ps []probe
+	for _, max := range []uint32{2 * 1024 * 1024, 1024} {
+		for _, s := range []uint32{0, 1, 2, max - 1, max, max + 1, 2 * max, 1 << 30, 0x7fffffff, 0x80000000, 0xfffffff0, 0xfffffffb, 0xfffffffc, 0xfffffffd, 0xfffffffe, 0xffffffff, max - 4, max - 3, max + 4} {
+			ps = append(ps, probe{max, s})
+		}
+	}
+	bad := 0
+	for _, p := range ps {
+		if bad > 0 && p.size > p.max {
+			continue // every unbounded reservation pins address space; one witness is enough
+		}
+		out := announce(p.max, p.size)
+		line := fmt.Sprintf("frame %d %d", p.max, p.size)
+		g.h.Emit(line, out)
+		g.h.Res.OracleEvals++
+		if p.size > p.max && out != "close" {
+			bad++
+			g.h.FailWith("frame-unbounded", fmt.Sprintf("receive limit %d, announced frame length %d: connection not closed (%s) — the receiver reserves a peer-chosen amount of memory", p.max, p.size, out), []string{line})
+		}
+		if p.size > 0 && p.size <= p.max && out != "alloc "+strconv.Itoa(int(p.size)) {
+			g.h.FailWith("frame-lost", fmt.Sprintf("receive limit %d, frame of %d bytes within the limit was not delivered: %s", p.max, p.size, out), []string{line})
+		}
+	}
 }
 
 func sameMsg(a, b protocol.Message) bool {
